@@ -47,7 +47,7 @@ describe(
 
 DEEP_COPIES = {"deepcopy_dict_of_arrays", "deepcopy"}
 # declared alias (one symbol, one reason)
-ALIAS_OK = {("SimpleCache", "__jacobian"): "Jacobian dictionaries are by design shared with discipline.jac and never mutated through the caller API"}
+ALIAS_OK: dict = {}  # (an earlier exemption for SimpleCache.__jacobian defended a defect: F32)
 
 
 def check_execute(ctx: Ctx) -> None:
@@ -373,6 +373,7 @@ def run(ctx: Ctx) -> None:
 
 # ---------------------------------------------------------------------------
 WITNESSES = [
+    {"name": "simple-cache-keeps-the-callers-jacobian", "file": "caches/simple_cache.py", "old": "        self.__inputs = deepcopy_dict_of_arrays(input_data)\n        self.__jacobian = deepcopy_dict_of_arrays(jacobian_data)", "new": "        self.__inputs = deepcopy_dict_of_arrays(input_data)\n        self.__jacobian = jacobian_data", "expect": "5.2"},
     {"name": "lookup-after-run", "file": BD, "old": "        if self.cache is not None:\n            if self.__can_load_cache(input_data):\n                self.io.output_grammar.validate(self.io.data)\n                return self.io.data\n\n            # Keep a pristine copy of the input data before it is eventually changed.\n            input_data_for_cache = self.__create_input_data_for_cache(input_data)\n", "new": "        if self.cache is not None:\n            # Keep a pristine copy of the input data before it is eventually changed.\n            input_data_for_cache = self.__create_input_data_for_cache(input_data)\n", "expect": "5.1"},
     {"name": "hit-still-runs", "file": BD, "old": "            if self.__can_load_cache(input_data):\n                self.io.output_grammar.validate(self.io.data)\n                return self.io.data\n", "new": "            if self.__can_load_cache(input_data):\n                self.io.output_grammar.validate(self.io.data)\n", "expect": "5.1"},
     {"name": "store-live-inputs", "file": BD, "old": "            self._store_cache(input_data_for_cache)", "new": "            self._store_cache(self.io.data)", "expect": "5.1"},
